@@ -68,7 +68,9 @@ pub fn decode_mappings(s: &str) -> Option<Vec<Seg>> {
       let mut shift = 0u32;
       let mut acc: u64 = 0;
       for b in seg.bytes() {
-        let d = b64_val(b)?;
+        // characters outside the base64 alphabet carry no information and are
+        // skipped (noise in a mappings string does not make it another map)
+        let Some(d) = b64_val(b) else { continue };
         acc |= ((d & 31) as u64) << shift;
         if d & 32 != 0 {
           shift += 5;
@@ -89,6 +91,10 @@ pub fn decode_mappings(s: &str) -> Option<Vec<Seg>> {
       }
       if shift != 0 {
         return None;
+      }
+      if n == 0 {
+        // nothing but noise between two separators: no segment
+        continue;
       }
       gc += vals[0];
       let orig = if n >= 4 {
